@@ -8,33 +8,85 @@ From SG Require Import Base.Prelude Base.GoInt Base.GoFloat Model.Rules.
 From Gen Require Import Leaf_gen.
 #[local] Open Scope Z_scope.
 
+(* ---- one shape-independent script for every "regenerated decision = model decision" lemma of this file ----
+   [leaf_decide]: case-split on the condition of every if-then-else of the goal (outermost first, so that
+   guarded sub-terms are only visited on the paths that reach them), then in every leaf: evaluate; if the
+   two sides still differ the path must be contradictory - break the recorded conditions into their atoms
+   (andb / orb / negb), use them to rewrite what is left of the goal, split the remaining atoms, and close
+   with reflexivity / lia (integer atoms) / congruence (the same float atom with two truth values).
+   Nothing here depends on the order or nesting of the tests in the generated term. *)
 Ltac split_ifs :=
   repeat match goal with
          | |- context [if ?c then _ else _] => destruct c eqn:?
          end.
+Ltac norm_hyps :=
+  repeat match goal with
+         | H : negb _ = true |- _ => apply Bool.negb_true_iff in H
+         | H : negb _ = false |- _ => apply Bool.negb_false_iff in H
+         | H : andb _ _ = true |- _ => apply Bool.andb_true_iff in H; destruct H
+         | H : orb _ _ = false |- _ => apply Bool.orb_false_iff in H; destruct H
+         | H : andb _ _ = false |- _ => apply Bool.andb_false_iff in H; destruct H
+         | H : orb _ _ = true |- _ => apply Bool.orb_true_iff in H; destruct H
+         | H : true = false |- _ => discriminate H
+         | H : false = true |- _ => discriminate H
+         end.
+Ltac split_hyp_ifs :=
+  repeat match goal with
+         | H : context [if ?c then _ else _] |- _ => destruct c eqn:?
+         end.
+Ltac use_hyps :=
+  repeat match goal with
+         | H : ?a = true |- context [?a] => rewrite H
+         | H : ?a = false |- context [?a] => rewrite H
+         end.
+Ltac split_atoms :=
+  repeat match goal with
+         | |- context [Z.eqb ?a ?b] => destruct (Z.eqb a b) eqn:?
+         | |- context [Z.ltb ?a ?b] => destruct (Z.ltb a b) eqn:?
+         | |- context [Z.leb ?a ?b] => destruct (Z.leb a b) eqn:?
+         | |- context [PrimFloat.ltb ?a ?b] => destruct (PrimFloat.ltb a b) eqn:?
+         | |- context [PrimFloat.leb ?a ?b] => destruct (PrimFloat.leb a b) eqn:?
+         | |- context [PrimFloat.eqb ?a ?b] => destruct (PrimFloat.eqb a b) eqn:?
+         | |- context [float64_equals ?a ?b] => destruct (float64_equals a b) eqn:?
+         end.
+Ltac z_facts :=
+  repeat match goal with
+         | H : Z.eqb _ _ = true |- _ => apply Z.eqb_eq in H
+         | H : Z.eqb _ _ = false |- _ => apply Z.eqb_neq in H
+         | H : Z.ltb _ _ = true |- _ => apply Z.ltb_lt in H
+         | H : Z.ltb _ _ = false |- _ => apply Z.ltb_ge in H
+         | H : Z.leb _ _ = true |- _ => apply Z.leb_le in H
+         | H : Z.leb _ _ = false |- _ => apply Z.leb_gt in H
+         end.
+Ltac leaf_close := first [ reflexivity | congruence | (exfalso; z_facts; lia) | (z_facts; lia) ].
+Ltac leaf_decide :=
+  cbv zeta; split_ifs;
+  first [ reflexivity
+        | repeat (progress (norm_hyps; split_hyp_ifs)); use_hyps; cbn [andb orb negb];
+          first [ leaf_close | split_atoms; cbn [andb orb negb]; leaf_close ] ].
 
 Lemma isolation_IsValidRule_ok r :
   (isolation_IsValidRule (i_metric r) (i_thr r) false (i_res r =? 0) =? 0) = iso_valid r.
-Proof. unfold isolation_IsValidRule, iso_valid. split_ifs; reflexivity. Qed.
+Proof. unfold isolation_IsValidRule, iso_valid. leaf_decide. Qed.
 
 Lemma system_IsValidSystemRule_ok r :
   (system_IsValidSystemRule (s_metric r) (s_trigger r) false =? 0) = sys_valid r.
-Proof. unfold system_IsValidSystemRule, sys_valid. split_ifs; reflexivity. Qed.
+Proof. unfold system_IsValidSystemRule, sys_valid. leaf_decide. Qed.
 
 Lemma circuitbreaker_IsValidRule_ok r :
   (circuitbreaker_IsValidRule (b_retry r) (b_interval r) (b_buckets r) (b_strategy r) (b_thr r) false (b_res r =? 0) =? 0)
   = brk_valid r.
-Proof. unfold circuitbreaker_IsValidRule, brk_valid. split_ifs; reflexivity. Qed.
+Proof. unfold circuitbreaker_IsValidRule, brk_valid. leaf_decide. Qed.
 
 Lemma hotspot_IsValidRule_ok r :
   (hotspot_IsValidRule (negb (h_pkey r =? 0)) (h_res r =? 0) (h_burst r) (h_cb r) (h_dur r) (h_maxq r)
      (h_metric r) (h_pidx r) (h_thr r) false =? 0) = hot_valid r.
-Proof. unfold hotspot_IsValidRule, hot_valid. split_ifs; reflexivity. Qed.
+Proof. unfold hotspot_IsValidRule, hot_valid. leaf_decide. Qed.
 
 Lemma flow_IsValidRule_ok tm r :
   (flow_IsValidRule (f_ref r =? 0) (f_res r =? 0) (f_cb r) (f_highmem r) (f_lowmem r) (f_memhigh r) (f_memlow r)
      (f_rel r) (f_interval r) (f_thr r) (f_tcs r) (f_wcold r) (f_wperiod r) false tm =? 0) = flow_valid tm r.
-Proof. unfold flow_IsValidRule, flow_valid. split_ifs; try reflexivity; try lia. Qed.
+Proof. unfold flow_IsValidRule, flow_valid. leaf_decide. Qed.
 
 Print Assumptions isolation_IsValidRule_ok.
 Print Assumptions system_IsValidSystemRule_ok.
@@ -66,66 +118,112 @@ Lemma vfilter_cons {rule} (valid : rule -> bool) (x : option rule) l :
     end.
 Proof. unfold vfilter, filter_step. destruct x as [r|]; cbn [nonnil filter]; reflexivity. Qed.
 
-Ltac filter_ok lem :=
-  intros; rewrite lem; unfold appended, goes_on;
-  match goal with |- context [if negb ?c then _ else _] => destruct c end; split; reflexivity.
-
-Lemma flow_filter_steps_ok tm r :
+Lemma flow_filter_all_step_ok tm r :
   let e := flow_IsValidRule (f_ref r =? 0) (f_res r =? 0) (f_cb r) (f_highmem r) (f_lowmem r) (f_memhigh r) (f_memlow r)
              (f_rel r) (f_interval r) (f_thr r) (f_tcs r) (f_wcold r) (f_wperiod r) false tm =? 0 in
-  (appended (flow_filter_all_step e) = filter_step (flow_valid tm) (Some r) /\ goes_on (flow_filter_all_step e) = true)
-  /\ (appended (flow_filter_res_step e) = filter_step (flow_valid tm) (Some r) /\ goes_on (flow_filter_res_step e) = true).
+  appended (flow_filter_all_step e) = filter_step (flow_valid tm) (Some r) /\ goes_on (flow_filter_all_step e) = true.
 Proof.
-  cbv zeta. rewrite flow_IsValidRule_ok. unfold flow_filter_all_step, flow_filter_res_step, appended, goes_on, filter_step.
-  destruct (flow_valid tm r); cbn [negb snd fst]; repeat split; reflexivity.
+  cbv zeta. rewrite flow_IsValidRule_ok. unfold flow_filter_all_step, appended, goes_on, filter_step.
+  destruct (flow_valid tm r); split; reflexivity.
 Qed.
 
-Lemma hotspot_filter_steps_ok r :
+Lemma flow_filter_res_step_ok tm r :
+  let e := flow_IsValidRule (f_ref r =? 0) (f_res r =? 0) (f_cb r) (f_highmem r) (f_lowmem r) (f_memhigh r) (f_memlow r)
+             (f_rel r) (f_interval r) (f_thr r) (f_tcs r) (f_wcold r) (f_wperiod r) false tm =? 0 in
+  appended (flow_filter_res_step e) = filter_step (flow_valid tm) (Some r) /\ goes_on (flow_filter_res_step e) = true.
+Proof.
+  cbv zeta. rewrite flow_IsValidRule_ok. unfold flow_filter_res_step, appended, goes_on, filter_step.
+  destruct (flow_valid tm r); split; reflexivity.
+Qed.
+
+Lemma hotspot_filter_all_step_ok r :
   let e := hotspot_IsValidRule (negb (h_pkey r =? 0)) (h_res r =? 0) (h_burst r) (h_cb r) (h_dur r) (h_maxq r)
              (h_metric r) (h_pidx r) (h_thr r) false =? 0 in
-  (appended (hotspot_filter_all_step e) = filter_step hot_valid (Some r) /\ goes_on (hotspot_filter_all_step e) = true)
-  /\ (appended (hotspot_filter_res_step e) = filter_step hot_valid (Some r) /\ goes_on (hotspot_filter_res_step e) = true).
+  appended (hotspot_filter_all_step e) = filter_step (hot_valid) (Some r) /\ goes_on (hotspot_filter_all_step e) = true.
 Proof.
-  cbv zeta. rewrite hotspot_IsValidRule_ok. unfold hotspot_filter_all_step, hotspot_filter_res_step, appended, goes_on, filter_step.
-  destruct (hot_valid r); cbn [negb snd fst]; repeat split; reflexivity.
+  cbv zeta. rewrite hotspot_IsValidRule_ok. unfold hotspot_filter_all_step, appended, goes_on, filter_step.
+  destruct (hot_valid r); split; reflexivity.
 Qed.
 
-Lemma circuitbreaker_filter_steps_ok r :
+Lemma hotspot_filter_res_step_ok r :
+  let e := hotspot_IsValidRule (negb (h_pkey r =? 0)) (h_res r =? 0) (h_burst r) (h_cb r) (h_dur r) (h_maxq r)
+             (h_metric r) (h_pidx r) (h_thr r) false =? 0 in
+  appended (hotspot_filter_res_step e) = filter_step (hot_valid) (Some r) /\ goes_on (hotspot_filter_res_step e) = true.
+Proof.
+  cbv zeta. rewrite hotspot_IsValidRule_ok. unfold hotspot_filter_res_step, appended, goes_on, filter_step.
+  destruct (hot_valid r); split; reflexivity.
+Qed.
+
+Lemma circuitbreaker_filter_all_step_ok r :
   let e := circuitbreaker_IsValidRule (b_retry r) (b_interval r) (b_buckets r) (b_strategy r) (b_thr r) false (b_res r =? 0) =? 0 in
-  (appended (circuitbreaker_filter_all_step e) = filter_step brk_valid (Some r) /\ goes_on (circuitbreaker_filter_all_step e) = true)
-  /\ (appended (circuitbreaker_filter_res_step e) = filter_step brk_valid (Some r) /\ goes_on (circuitbreaker_filter_res_step e) = true).
+  appended (circuitbreaker_filter_all_step e) = filter_step (brk_valid) (Some r) /\ goes_on (circuitbreaker_filter_all_step e) = true.
 Proof.
-  cbv zeta. rewrite circuitbreaker_IsValidRule_ok. unfold circuitbreaker_filter_all_step, circuitbreaker_filter_res_step, appended, goes_on, filter_step.
-  destruct (brk_valid r); cbn [negb snd fst]; repeat split; reflexivity.
+  cbv zeta. rewrite circuitbreaker_IsValidRule_ok. unfold circuitbreaker_filter_all_step, appended, goes_on, filter_step.
+  destruct (brk_valid r); split; reflexivity.
 Qed.
 
-Lemma isolation_filter_steps_ok r :
+Lemma circuitbreaker_filter_res_step_ok r :
+  let e := circuitbreaker_IsValidRule (b_retry r) (b_interval r) (b_buckets r) (b_strategy r) (b_thr r) false (b_res r =? 0) =? 0 in
+  appended (circuitbreaker_filter_res_step e) = filter_step (brk_valid) (Some r) /\ goes_on (circuitbreaker_filter_res_step e) = true.
+Proof.
+  cbv zeta. rewrite circuitbreaker_IsValidRule_ok. unfold circuitbreaker_filter_res_step, appended, goes_on, filter_step.
+  destruct (brk_valid r); split; reflexivity.
+Qed.
+
+Lemma isolation_filter_all_step_ok r :
   let e := isolation_IsValidRule (i_metric r) (i_thr r) false (i_res r =? 0) =? 0 in
-  (appended (isolation_filter_all_step e) = filter_step iso_valid (Some r) /\ goes_on (isolation_filter_all_step e) = true)
-  /\ (appended (isolation_filter_res_step e) = filter_step iso_valid (Some r) /\ goes_on (isolation_filter_res_step e) = true).
+  appended (isolation_filter_all_step e) = filter_step (iso_valid) (Some r) /\ goes_on (isolation_filter_all_step e) = true.
 Proof.
-  cbv zeta. rewrite isolation_IsValidRule_ok. unfold isolation_filter_all_step, isolation_filter_res_step, appended, goes_on, filter_step.
-  destruct (iso_valid r); cbn [negb snd fst]; repeat split; reflexivity.
+  cbv zeta. rewrite isolation_IsValidRule_ok. unfold isolation_filter_all_step, appended, goes_on, filter_step.
+  destruct (iso_valid r); split; reflexivity.
 Qed.
 
-(* a nil element: IsValidRule(nil) is an error whatever the (absent) fields, so nothing is appended *)
-Lemma nil_element_filtered :
-  (forall a b c d e f g h i j k l m tm, flow_IsValidRule a b c d e f g h i j k l m true tm =? 0 = false)
-  /\ (forall a b c d e f g h i, hotspot_IsValidRule a b c d e f g h i true =? 0 = false)
-  /\ (forall a b c d e g, circuitbreaker_IsValidRule a b c d e true g =? 0 = false)
-  /\ (forall a b d, isolation_IsValidRule a b true d =? 0 = false).
-Proof. repeat split; intros; reflexivity. Qed.
+Lemma isolation_filter_res_step_ok r :
+  let e := isolation_IsValidRule (i_metric r) (i_thr r) false (i_res r =? 0) =? 0 in
+  appended (isolation_filter_res_step e) = filter_step (iso_valid) (Some r) /\ goes_on (isolation_filter_res_step e) = true.
+Proof.
+  cbv zeta. rewrite isolation_IsValidRule_ok. unfold isolation_filter_res_step, appended, goes_on, filter_step.
+  destruct (iso_valid r); split; reflexivity.
+Qed.
 
-Lemma nil_element_steps :
-  appended (flow_filter_all_step false) = false /\ appended (flow_filter_res_step false) = false
-  /\ appended (hotspot_filter_all_step false) = false /\ appended (hotspot_filter_res_step false) = false
-  /\ appended (circuitbreaker_filter_all_step false) = false /\ appended (circuitbreaker_filter_res_step false) = false
-  /\ appended (isolation_filter_all_step false) = false /\ appended (isolation_filter_res_step false) = false.
-Proof. repeat split; reflexivity. Qed.
+(* a nil element: IsValidRule(nil) is an error whatever the (absent) fields, so nothing is appended
+   (one lemma per regenerated function, so that a function the translator can not regenerate on some
+   tree takes only its own lemma with it) *)
+Lemma flow_nil_invalid a b c d e f g h i j k l m tm : flow_IsValidRule a b c d e f g h i j k l m true tm =? 0 = false.
+Proof. unfold flow_IsValidRule. leaf_decide. Qed.
+Lemma hotspot_nil_invalid a b c d e f g h i : hotspot_IsValidRule a b c d e f g h i true =? 0 = false.
+Proof. unfold hotspot_IsValidRule. leaf_decide. Qed.
+Lemma circuitbreaker_nil_invalid a b c d e g : circuitbreaker_IsValidRule a b c d e true g =? 0 = false.
+Proof. unfold circuitbreaker_IsValidRule. leaf_decide. Qed.
+Lemma isolation_nil_invalid a b d : isolation_IsValidRule a b true d =? 0 = false.
+Proof. unfold isolation_IsValidRule. leaf_decide. Qed.
 
-Print Assumptions flow_filter_steps_ok.
-Print Assumptions hotspot_filter_steps_ok.
-Print Assumptions circuitbreaker_filter_steps_ok.
-Print Assumptions isolation_filter_steps_ok.
-Print Assumptions nil_element_filtered.
-Print Assumptions nil_element_steps.
+Lemma flow_filter_all_nil : appended (flow_filter_all_step false) = false. Proof. reflexivity. Qed.
+Lemma flow_filter_res_nil : appended (flow_filter_res_step false) = false. Proof. reflexivity. Qed.
+Lemma hotspot_filter_all_nil : appended (hotspot_filter_all_step false) = false. Proof. reflexivity. Qed.
+Lemma hotspot_filter_res_nil : appended (hotspot_filter_res_step false) = false. Proof. reflexivity. Qed.
+Lemma circuitbreaker_filter_all_nil : appended (circuitbreaker_filter_all_step false) = false. Proof. reflexivity. Qed.
+Lemma circuitbreaker_filter_res_nil : appended (circuitbreaker_filter_res_step false) = false. Proof. reflexivity. Qed.
+Lemma isolation_filter_all_nil : appended (isolation_filter_all_step false) = false. Proof. reflexivity. Qed.
+Lemma isolation_filter_res_nil : appended (isolation_filter_res_step false) = false. Proof. reflexivity. Qed.
+
+Print Assumptions flow_filter_all_step_ok.
+Print Assumptions flow_filter_res_step_ok.
+Print Assumptions hotspot_filter_all_step_ok.
+Print Assumptions hotspot_filter_res_step_ok.
+Print Assumptions circuitbreaker_filter_all_step_ok.
+Print Assumptions circuitbreaker_filter_res_step_ok.
+Print Assumptions isolation_filter_all_step_ok.
+Print Assumptions isolation_filter_res_step_ok.
+Print Assumptions flow_nil_invalid.
+Print Assumptions hotspot_nil_invalid.
+Print Assumptions circuitbreaker_nil_invalid.
+Print Assumptions isolation_nil_invalid.
+Print Assumptions flow_filter_all_nil.
+Print Assumptions flow_filter_res_nil.
+Print Assumptions hotspot_filter_all_nil.
+Print Assumptions hotspot_filter_res_nil.
+Print Assumptions circuitbreaker_filter_all_nil.
+Print Assumptions circuitbreaker_filter_res_nil.
+Print Assumptions isolation_filter_all_nil.
+Print Assumptions isolation_filter_res_nil.
